@@ -17,6 +17,8 @@ pub struct WithRange<T>(pub T, pub SourceRange);
 //@end
 //@item src/frontend/ast.rs | enum | Block
 //@end
+//@item src/frontend/ast.rs | struct | Program
+//@end
 //@item src/frontend/ast.rs | struct | If
 //@end
 //@item src/frontend/ast.rs | struct | While
@@ -208,6 +210,19 @@ pub open spec fn block_run(b: Block, old: Seq<Event>, new: Seq<Event>, r: Result
                 Err(e) => n >= 1 && new[new.len() - 1] == Event::StmtErr(stmts@[n - 1], e),
             }
         },
+    }
+}
+
+/// program: blocks 0..n ran in order, each started in Normal state; it stopped at n < len only because block n-1 left a
+/// non-Normal state (break / continue / return outside any loop or function) or failed
+pub open spec fn program_run(p: Program, old: Seq<Event>, new: Seq<Event>, r: Result<(), RuntimeError>, fin: CfKind) -> bool {
+    let n = new.len() - old.len();
+    extends(old, new) && n <= p.code@.len()
+    && (forall|k: int| 0 <= k < n - 1 ==> #[trigger] new[old.len() + k] == Event::Block(p.code@[k], CfKind::Normal))
+    && match r {
+        Ok(()) => if n == 0 { p.code@.len() == 0 && fin is Normal } else {
+            new[new.len() - 1] == Event::Block(p.code@[n - 1], fin) && (n == p.code@.len() || !(fin is Normal)) },
+        Err(e) => n >= 1 && new[new.len() - 1] == Event::BlockErr(p.code@[n - 1], e),
     }
 }
 
